@@ -156,8 +156,13 @@ class TocFetcher:
         if (chan != 0):
             return
         payload = packet.data[1:]
+        command = packet.data[0]
 
         if (self.state == GET_TOC_INFO):
+            # Only the reply to our info request is of interest, not e.g.
+            # a late item reply that was requested in a previous session
+            if command != (CMD_TOC_INFO_V2 if self._useV2 else CMD_TOC_INFO):
+                return
             if self._useV2:
                 [self.nbr_of_items, self._crc] = struct.unpack(
                     '<HI', payload[:6])
@@ -183,6 +188,8 @@ class TocFetcher:
                     self._toc_fetch_finished()
 
         elif (self.state == GET_TOC_ELEMENT):
+            if command != (CMD_TOC_ITEM_V2 if self._useV2 else CMD_TOC_ELEMENT):
+                return
             # Always add new element, but only request new if it's not the
             # last one.
             if self._useV2:
